@@ -1,13 +1,16 @@
 package harness
 
 import (
+	"bytes"
 	"fmt"
+	"io"
 	"math"
 	"runtime"
 	"sort"
 	"strings"
 
 	"github.com/kelindar/column"
+	"github.com/klauspost/compress/s2"
 	"pgregory.net/rapid"
 )
 
@@ -18,11 +21,17 @@ import (
 // ---------------------------------------------------------------------------
 
 type Machine struct {
-	Prop string
-	Sch  *Schema
-	M    *Model
-	C    *column.Collection
-	Opts column.Options
+	// C14: a second Snapshot call issued at this yield point of a snapshot in progress (see installTail)
+	OverlapAt   string
+	OverlapRan  bool
+	OverlapErr  error
+	OverlapBuf  bytes.Buffer
+	OverlapRows int
+	Prop        string
+	Sch         *Schema
+	M           *Model
+	C           *column.Collection
+	Opts        column.Options
 
 	Trace  []string
 	Flags  map[string]bool
@@ -642,4 +651,82 @@ func (mc *Machine) snapshotDeleted() {
 	for k, v := range mc.everDeleted {
 		mc.prevDeleted[k] = v
 	}
+}
+
+// ActFailedRestore lets a history START on a collection whose Restore from a damaged snapshot
+// failed: a fixture collection of the same schema (n rows over several blocks) is snapshotted,
+// the state stream is re-framed into 4 KiB s2 blocks (so that a cut leaves some blocks of rows
+// restored and the rest missing) and truncated at a drawn position; Restore of that prefix into
+// the machine's (empty) collection - and into the given mirrors - returns an error or nil. The
+// reference model then starts from whatever Restore left behind; every later transaction must
+// behave as on any other collection.
+func (mc *Machine) ActFailedRestore(t *rapid.T, mirrors ...*column.Collection) {
+	if len(mc.M.Rows) != 0 {
+		return
+	}
+	n := rapid.SampledFrom([]int{16390, 33000, 49200}).Draw(t, "fixture-rows")
+	cols := storableCols(mc.M, TxnCfg{})
+	if len(cols) > 2 {
+		cols = cols[:2]
+	}
+	seed := rapid.Uint64().Draw(t, "fixture-seed")
+	fc := newCollectionLive(mc.Sch, mc.M.ColLive, column.Options{})
+	defer fc.Close()
+	keyed := mc.Sch.Key >= 0
+	if err := fc.Query(func(txn *column.Txn) error {
+		for i := 0; i < n; i++ {
+			body := func(r column.Row) error {
+				for _, ci := range cols {
+					writeStore(txn, r, mc.Sch.Cols[ci], Store{Col: ci, Val: prefillValue(mc.Sch.Cols[ci], seed, i, ci), Via: uint8(i % 2)})
+				}
+				return nil
+			}
+			if keyed {
+				if err := txn.InsertKey(fmt.Sprintf("f%d", i), body); err != nil {
+					return err
+				}
+			} else if _, err := txn.Insert(body); err != nil {
+				return err
+			}
+		}
+		return nil
+	}); err != nil {
+		mc.fail(t, "fixture: %v", err)
+	}
+	var snap bytes.Buffer
+	if err := fc.Snapshot(&snap); err != nil {
+		mc.fail(t, "fixture Snapshot: %v", err)
+	}
+	raw, err := io.ReadAll(s2.NewReader(bytes.NewReader(snap.Bytes())))
+	if err != nil {
+		mc.fail(t, "fixture: decoding the state stream: %v", err)
+	}
+	var small bytes.Buffer
+	w := s2.NewWriter(&small, s2.WriterBlockSize(4<<10))
+	w.Write(raw)
+	w.Close()
+	cut := small.Len() * rapid.IntRange(5, 98).Draw(t, "cut-percent") / 100
+	data := small.Bytes()[:cut]
+	outcome := ""
+	for i, c := range append([]*column.Collection{mc.C}, mirrors...) {
+		rerr, bad := guarded(func() error { return c.Restore(bytes.NewReader(data)) })
+		if bad != "" {
+			mc.fail(t, "Restore of a truncated snapshot (%d of %d bytes): %s", cut, small.Len(), bad)
+		}
+		if i == 0 {
+			outcome = fmt.Sprint(rerr)
+		}
+	}
+	got, _, xerr := extractRange(mc.C, mc.Sch, mc.M.ColLive, false)
+	if xerr != nil {
+		mc.fail(t, "reading the collection after the failed Restore: %v", xerr)
+	}
+	mc.M.Rows = got
+	mc.M.dirty()
+	mc.logf("history starts after Restore of a truncated snapshot (fixture %d rows, %d of %d bytes) returned %s: %d rows restored", n, cut, small.Len(), outcome, len(got))
+	mc.flag("starts-after-failed-restore")
+	if len(got) > 16384 {
+		mc.flag("multiblock")
+	}
+	mc.CheckCount(t)
 }
